@@ -54,11 +54,20 @@ def _spec(rng, name, n_lo=2, n_hi=6):
             default = {"int": "3", "float": "0.5", "str": "'a'", "bool": "True", "List[str]": "['a']", "dict": "{}",
                        "Union[int, str]": "4"}.get(typ, "None")
         doc = " ".join(rng.choice(gen.WORDS) for _ in range(rng.randint(2, 5))).capitalize()
-        if rng.random() < 0.2:
-            # prose in the shapes the type guesser reacts to, with synonyms that normalise to the same type twice
+        if rng.random() < 0.3:
+            # prose in the shapes the type guesser reacts to, with synonyms that normalise to the same type twice;
+            # lines announcing a default in two different phrasings (which one wins must not depend on a set's order);
+            # dotted type names from modules that only some of cdd's code paths import (what they resolve to must not
+            # depend on what happens to be in sys.modules)
             doc = rng.choice(("number or float or int", "a str or string or bytes", "either int, integer or float",
                               "List of str or string", "one of `a`, `b` or `a`", "bool or boolean or int",
-                              "int or float or number.", "Tuple of int or integer"))
+                              "int or float or number.", "Tuple of int or integer",
+                              "Port to bind. Default: 8080. When TLS is enabled it defaults to 8443",
+                              "Level. Default value is 3; with the fast flag it defaults to 1.",
+                              "Size, defaults to 5. Default: 7",
+                              "An `argparse.Namespace` or `dict`.", "A `black.Mode` or `str`.",
+                              "either `json.JSONDecoder` or `dict`", "a `collections.OrderedDict` or `dict`",
+                              "`pathlib.Path` or `str`"))
         params.append({"name": n, "typ": typ, "default": default, "doc": doc})
     return {"name": name, "doc": "Do the %s thing." % name, "params": params,
             "returns": rng.choice((None, {"typ": "int", "doc": "The result"}))}
